@@ -6,12 +6,14 @@ For every generated tree of instrumented objects the single-fault space
 values and fault pairs are added. Oracle: differential against the real code - the run in
 which invocation i *returns* repr(value) instead of raising.
 """
+import collections
 import inspect
 import itertools
 import os
 import random
 import re
 import sys
+import types
 import warnings
 
 from simkit import core
@@ -45,15 +47,39 @@ class Boom(Exception):
     pass
 
 
+class BadStr(Exception):
+    """an exception whose own __str__ fails"""
+
+    def __str__(self):
+        raise RuntimeError('str() of the exception failed')
+
+
+class Chained(Exception):
+    """raised 'from' another exception (explicit cause)"""
+
+
+def _raise(cls, payload):
+    if cls is Chained:
+        try:
+            raise KeyError('inner {cause}')
+        except KeyError as inner:
+            raise Chained(payload) from inner
+    if cls is ExceptionGroup:
+        raise ExceptionGroup(payload or 'group', [ValueError('a {0}'), Boom('b')])
+    raise cls(payload)
+
+
 EXC = {c.__name__: c for c in (ValueError, TypeError, KeyError, AttributeError, RuntimeError,
                                ZeroDivisionError, AssertionError, RecursionError, StopIteration,
                                OSError, LookupError, ArithmeticError, NotImplementedError,
-                               UnicodeError, MemoryError, EOFError, Boom)}
+                               UnicodeError, MemoryError, EOFError, Boom, BadStr, Chained,
+                               ExceptionGroup)}
 # exception payloads: text that a careless warning/format path could choke on
 PAYLOADS = ['injected fault', '{}', '{name} {0}', '%s %(x)d %', 'line1\nline2', 'sn\u00f6wm\u00e4n \u2603', "{'id': 3}",
             '', '}{', '\\N{bad}', 'x' * 300]
 NONDOCS = {'None': None, 'int': 0, 'bytes': b'', 'list': [], 'object': object(), 'tuple': ('a',)}
 
+SETTINGS = {}        # extra pformat settings of the tree under test (per run)
 PLAN = {}            # invocation index -> (phase, mode, arg)
 COUNT = [0]
 FIRED = []
@@ -92,6 +118,9 @@ class NSub(NName):   # dispatches through its by-name base
     pass
 
 
+NT1 = collections.namedtuple('NT1', 'only')
+NT2 = collections.namedtuple('NT2', 'first second')
+
 KINDS = {'NT': NT, 'NP': NP, 'NPred': NPred, 'NName': NName, 'NSub': NSub}
 
 
@@ -115,7 +144,7 @@ def _fire(i, plan, v, me):
             'injected fault at invocation %d' % i
         if arg == 'KeyError' and payload.startswith('{\''):
             raise KeyError({'id': 3})
-        raise EXC[arg](payload)
+        _raise(EXC[arg], payload)
     if mode == 'nondoc':
         return NONDOCS[arg]
     return repr(v)          # mode == 'repr': the healthy reference
@@ -201,9 +230,14 @@ def gen_tree(r, budget, depth=0, pool=None):
     elif k < 0.88:
         node = ['tuple', [gen_tree(r, budget, depth + 1, pool) for _ in range(r.randrange(0, 3))]]
         pool[0] += 1
-    else:
+    elif k < 0.95:
         node = ['dict', [['k%d' % j, gen_tree(r, budget, depth + 1, pool)]
                          for j in range(r.randrange(0, 4))]]
+        pool[0] += 1
+    else:
+        # other bundled container printers; 'objkeys' is a dict whose KEYS are harness objects
+        kind = r.choice(['deque', 'odict', 'ns', 'ntuple', 'objkeys', 'ddict', 'chainmap'])
+        node = [kind, [gen_tree(r, budget, depth + 1, pool) for _ in range(r.randrange(1, 3))]]
         pool[0] += 1
     x = r.random()
     if node[0] != 'ref':
@@ -232,6 +266,28 @@ def build(node, env):
         v = tuple(build(k, env) for k in node[1])
     elif t == 'dict':
         v = {k: build(x, env) for k, x in node[1]}
+    elif t == 'deque':
+        v = collections.deque(build(k, env) for k in node[1])
+    elif t == 'odict':
+        v = collections.OrderedDict(('o%d' % i, build(k, env)) for i, k in enumerate(node[1]))
+    elif t == 'ddict':
+        v = collections.defaultdict(list, {('d%d' % i): build(k, env) for i, k in enumerate(node[1])})
+    elif t == 'chainmap':
+        v = collections.ChainMap({('m%d' % i): build(k, env) for i, k in enumerate(node[1])}, {'z': 0})
+    elif t == 'ns':
+        v = types.SimpleNamespace(**{('a%d' % i): build(k, env) for i, k in enumerate(node[1])})
+    elif t == 'ntuple':
+        kids = [build(k, env) for k in node[1]]
+        v = (NT1 if len(kids) == 1 else NT2)(*kids[:2])
+    elif t == 'objkeys':
+        v = {}
+        for i, k in enumerate(node[1]):
+            key = build(k, env)
+            try:
+                hash(key)
+            except TypeError:
+                key = 'unhashable%d' % i
+            v[key] = i
     else:
         raise core.HarnessError('bad node %r' % (node,))
     env.append(v)
@@ -247,11 +303,13 @@ def generate(rng, idx, tier):
     excs = sorted(EXC)
     return dict(tree=tree, width=rng.choice([20, 40, 79]), mode='enumerate',
                 exc_seed=rng.randrange(1 << 30), pairs=3 if tier == 'quick' else 8,
-                bundled=rng.choice(['none', 'none', 'none', 'containers', 'containers', 'all']))
+                bundled=rng.choice(['none', 'none', 'none', 'containers', 'containers', 'all']),
+                settings=rng.choice([{}, {}, {}, {'depth': 3}, {'max_seq_len': 2}, {'sort_dict_keys': True},
+                                     {'indent': 2, 'ribbon_width': 30}]))
 
 
 # ------------------------------------------------------------------ execution
-def _print(v, width, plan):
+def _print(v, width, plan, settings=None):
     PLAN.clear()
     PLAN.update(plan)
     COUNT[0] = 0
@@ -259,7 +317,7 @@ def _print(v, width, plan):
     with warnings.catch_warnings(record=True) as w:
         warnings.simplefilter('always')
         try:
-            out = ['ok', P.pformat(v, width=width)]
+            out = ['ok', P.pformat(v, width=width, **(SETTINGS if settings is None else settings))]
         except Exception as e:
             out = ['raised', type(e).__name__, str(e)[:200]]
     PLAN.clear()
@@ -274,7 +332,7 @@ def _check_fault(v, width, faults, base, other, other_base):
     ref, rw, _, rfired = _print(v, width, ref_plan)
     got, gw, _, gfired = _print(v, width, bad_plan)
     again, aw, _, _ = _print(v, width, {})
-    oth, ow, _, _ = _print(other, 79, {})
+    oth, ow, _, _ = _print(other, 79, {}, {})
     info = dict(fired=len(gfired), ref_fired=len(rfired))
     nondoc = any(f[2] == 'nondoc' for f in faults)
     detail = dict(faults=faults, got=got, ref=ref, fired=gfired)
@@ -334,10 +392,12 @@ def execute(spec):
     if spec.get('bundled', 'none') != 'none':
         wrapped = wrap_bundled(BUNDLED_CONTAINERS + (BUNDLED_LEAVES if spec['bundled'] == 'all' else ()))
     v = build(tree, [])
+    SETTINGS.clear()
+    SETTINGS.update(spec.get('settings') or {})
     width = spec['width']
     other = {'unrelated': [1, NT('z', [2])], 'k': (3,)}
     base = _print(v, width, {})
-    other_base = _print(other, 79, {})[0]
+    other_base = _print(other, 79, {}, {})[0]
     if base[0][0] != 'ok' or other_base[0] != 'ok':
         raise core.HarnessError('fault-free print raised: %r' % (base[0],))
     n = base[2]
@@ -361,7 +421,7 @@ def execute(spec):
             res['signature'] = vio['signature']
             res['detail'] = dict(vio['detail'], tree=tree, width=width, base=base[0][1][:600])
             res['replay_spec'] = dict(tree=tree, width=width, mode='explicit', faults=faults,
-                                      bundled=spec.get('bundled', 'none'))
+                                      bundled=spec.get('bundled', 'none'), settings=spec.get('settings') or {})
             return True
         return False
 
@@ -445,8 +505,10 @@ def _subtrees(node, path=()):
             yield path, ['obj', node[1], node[2], node[3][:i] + node[3][i + 1:]]
         for i, k in enumerate(node[3]):
             yield from _subtrees(k, path + (3, i))
-    elif t in ('list', 'tuple'):
+    elif t in ('list', 'tuple', 'deque', 'odict', 'ns', 'ntuple', 'objkeys', 'ddict', 'chainmap'):
         for i in range(len(node[1])):
+            if t == 'ntuple' and len(node[1]) <= 1:
+                break
             yield path, [t, node[1][:i] + node[1][i + 1:]]
         for i, k in enumerate(node[1]):
             yield from _subtrees(k, path + (1, i))
@@ -477,7 +539,7 @@ def shrinkers(spec):
             elif t == 'obj':
                 for k in node[3]:
                     yield from walk(k)
-            elif t in ('list', 'tuple'):
+            elif t in ('list', 'tuple', 'deque', 'odict', 'ns', 'ntuple', 'objkeys', 'ddict', 'chainmap'):
                 for k in node[1]:
                     yield from walk(k)
             elif t == 'dict':
